@@ -7,6 +7,7 @@ from .. import core
 from .. import gen as G
 
 LEVEL = "proof"
+READY = True
 CLAIM = {
     "text": "Lean theorems over ALL selection lists that are prefix-disjoint with ascending per-array order: the model of Query._select / _patch_obj / _fix_sparse_arrays "
             "builds exactly the trie of the selected locations (integer-keyed levels compacted to arrays in rank order), every selected value is found at the rank-compacted "
